@@ -83,7 +83,7 @@ def setup():
                             if _ALLOC["commit_n"] == 0:
                                 _ALLOC["commit_n"] = None
                                 _ALLOC["fired_commit"] += 1
-                                raise MemoryError("injected allocation failure while building the immutable version at commit")
+                                raise _ALLOC.get("exc", MemoryError)("injected failure while building the immutable version at commit")
                         finally:
                             _ALLOC["busy"] = False
                     return _orig(self, *a, **kw)
@@ -96,7 +96,7 @@ def setup():
                             _ALLOC["fired"] += 1
                             # this writer did get the write right; it now gives it up
                             _ALLOC["failed_inv"].add(threadsim._ACTIVE.current.data.get("inv"))
-                            raise MemoryError("injected allocation failure in version setup")
+                            raise _ALLOC.get("exc", MemoryError)("injected failure in version setup")
                     finally:
                         _ALLOC["busy"] = False
                 return _orig(self, *a, **kw)
@@ -180,7 +180,7 @@ def gen_case(seed, tier):
         threads[0]["late"] = False
     alloc_fail = wl.choice([1, 2, 3, 4]) if wl.random() < 0.12 else None
     alloc_fail_commit = wl.choice([1, 2, 3]) if wl.random() < 0.10 else None
-    return {"prop": PROP, "seed": seed, "cfg": cfg, "threads": threads, "schedule": None, "alloc_fail": alloc_fail, "alloc_fail_commit": alloc_fail_commit, "btree_t": wl.choice([3, 3, 4, 127])}
+    return {"prop": PROP, "seed": seed, "cfg": cfg, "threads": threads, "schedule": None, "alloc_fail": alloc_fail, "alloc_fail_commit": alloc_fail_commit, "btree_t": wl.choice([3, 3, 4, 127]), "alloc_exc": wl.choice(["mem", "mem", "base"])}
 
 
 # ---------------------------------------------------------------------------
@@ -401,8 +401,8 @@ class _World:
         s.yield_point("op")
         try:
             txn = z.writer()
-        except MemoryError:
-            # the injected allocation failure: this writer ends here, the zone must stay usable
+        except (MemoryError, _PlannedBase):
+            # the injected failure (an allocation failure, or an interrupt-like BaseException): this writer ends here, the zone must stay usable
             self.admitted_inv.add(inv)
             t.phase = "idle"
             log.add("writer_failed_alloc", t.idx, n)
@@ -490,8 +490,8 @@ class _World:
                 else:
                     with txn:
                         pass
-            except MemoryError:
-                # the injected allocation failure at commit: per the documentation the commit
+            except (MemoryError, _PlannedBase):
+                # the injected failure at commit: per the documentation the commit
                 # fails and the transaction is rolled back; the zone must stay usable
                 self.commits_invoked -= 1
                 self.failed_accounted += 1
@@ -807,6 +807,7 @@ def run_case(case, keep_log=False):
     _ALLOC["fired_commit"] = 0
     _ALLOC["failed_inv"] = set()
     _ALLOC["skip_zone"] = world.zone2
+    _ALLOC["exc"] = _PlannedBase if case.get("alloc_exc") == "base" else MemoryError
     try:
         failure = sched.run()
     finally:
